@@ -42,7 +42,7 @@ ASSUMPTIONS = [
 ]
 CAP_S = {"quick": 2400, "thorough": 10800}
 NP_SHAPES = ("1d", "2d", "one", "empty", "strided", "F2d", "swapped")  # strided: every other record of a larger array; F2d: Fortran-ordered 2-D; swapped: fields in non-native byte order
-AK_LAYOUTS = ("flat", "jagged", "nested3", "optlist", "optrec", "regular", "empty")
+AK_LAYOUTS = ("flat", "jagged", "nested3", "optlist", "optrec", "regular", "empty", "jagged+qopt")  # +qopt: an option-typed extra field, missing where the vector is present
 EXCLUDE = set()
 
 
@@ -176,6 +176,8 @@ def make(backend, system, flavor, rows, cfg):
             return B.make_np(system, flavor, rows[:m], shape=(2, m // 2)).copy(order="F")
         if cfg == "empty":
             return B.make_np(system, flavor, rows)[:0]
+    if backend == "AKA" and cfg == "jagged+qopt":
+        return B.make_ak(system, flavor, rows, "jagged", extra={"qopt": [None if i % 2 else 7 + i for i in range(len(rows))]})
     if backend == "AKA":
         return B.make_ak(system, flavor, rows, cfg)
     raise KeyError((backend, cfg))
@@ -193,7 +195,7 @@ def element_rows(backend, rows, cfg):
     if cfg == "empty":
         return []
     # the same arrangement as build._nest: a None list (optlist) or None record (optrec) is a missing leaf
-    return B.flat_leaves(B._nest(list(range(n)), cfg))
+    return B.flat_leaves(B._nest(list(range(n)), cfg.split("+")[0]))
 
 
 def run_case(res: Result, op, sa, sb, fa, fb, ba, bb, cfga, cfgb, rows_a, rows_b, s, scalar_form, refcache, scale):
@@ -355,7 +357,7 @@ def configs(ba, bb, tier):
     if ba == bb == "NP":
         return [("1d", "1d"), ("2d", "2d"), ("empty", "empty"), ("strided", "1d"), ("1d", "strided"), ("F2d", "2d"), ("F2d", "F2d"), ("swapped", "1d"), ("1d", "swapped")]
     if ba == bb == "AKA":
-        return [(c, c) for c in ("flat", "jagged", "nested3", "optlist", "optrec", "regular", "empty")] if tier == "thorough" else [(c, c) for c in ("flat", "jagged", "optrec", "regular")]
+        return [(c, c) for c in ("flat", "jagged", "nested3", "optlist", "optrec", "regular", "empty")] + [("jagged+qopt", "jagged")] if tier == "thorough" else [(c, c) for c in ("flat", "jagged", "optrec", "regular")] + [("jagged+qopt", "jagged")]
     if {ba, bb} == {"NP", "AKA"}:
         return [("1d", "flat")] if ba == "NP" else [("flat", "1d")]
     # a single object / record against an array: broadcast
